@@ -392,6 +392,7 @@ class C09(Property):
     level_note = ("Lean kernel, axioms within {propext, Classical.choice, Quot.sound}; sequential histories only (the property's "
                   "quantifier); SQLite and cachebox are modelled")
     assumptions = ["operations of a history do not overlap (each call is awaited before the next)"]
+    quick_budget_s = 480          # real time (threads, database): generous under machine load
     min_nontrivial = 20
 
     def _check_history(self, ctx: Ctx, h: History, idx: int, lines, expect, meta):
